@@ -105,6 +105,13 @@ CLAIMED = {
         note="Equality with the triple Fourier integral and behaviour for numerically near-degenerate levels (runtime resonance decision) are not decided. The multi-term table is transcribed from the header documentation.",
         technique="sympy normal forms over index-space typed atoms, symbolic environment (reaching definitions), constant-table evaluation, switch/loop structure rules",
         ref="DESIGN.md §3 C02"),
+    "C10": dict(
+        text="Static structure of the eigenbasis field operators in both build configurations: FieldOperatorPart::compute fills LeftMat(n,k) = conj(U_to(l,n)) (conj present iff complex build) and RightMat(k,m) = sign*U_from(k,m) with l the inner "
+             "position of the image O|K>, k of K, over all eigenstates, stores (LeftMat*RightMat).sparseView in both storage orders with pruning tolerance <= 1e-8, HFrom/HTo bound correctly; the container shortcut assigns to the c part "
+             "whose right block is the left block of the c+ entry the ADJOINT (not transpose) of the c+ part's other-major matrix and sets both statuses after computing c+; index-space consistency (eigen vs Fock) wherever eigenvectors are read.",
+        note="That the back-transformation gives the Jordan-Wigner matrix and that the CAR hold when assembled over blocks are value-level statements and are not decided; degenerate eigenvectors are Eigen's business.",
+        technique="sympy comparison of element formulas per build configuration + key matching of the adjoint shortcut + index-space role typing",
+        ref="DESIGN.md §3 C10"),
 }
 
 NOT_YET = {}
